@@ -7,6 +7,7 @@ PROP = "C10"
 LEVEL = "exploration"
 SHARDS = {"quick": 8, "thorough": 16}
 TIMEOUT = {"quick": 900, "thorough": 7200}
+THOROUGH_MULT = 4   # thorough budgets below are multiplied by this (sized for roughly five minutes on 16 cores)
 REQUIRED = {"bytes_roundtrip": 8000, "string_roundtrip": 3000, "check_decoder": 8000, "check_encoder": 2000, "consumer": 2000}
 ANCHORS = ['helper:encode_base58', 'helper:decode_base58', 'helper:encode_base58_checksum', 'helper:decode_base58_checksum', 'helper:b58decode_addr']
 RULE = ("(i) all lengths 1..128 x leading zero counts 0..len (8256 structured cases, enumerated) + random; (ii) all 58 "
@@ -279,6 +280,19 @@ def run(ctx):
             s_ = rnd.choice(cand)
             pos = rnd.choice([i for i in range(1, len(s_)) if s_[i] == want])
             judge_check_decoder(ctx, {"s": s_[:pos] + c + s_[pos + 1:], "tag": "grid-nonalphabet"})
+        # ... and to a value OUTSIDE 0..57 (str.find's -1, an ord() difference, a table default): then the string in which
+        # the neighbouring digit absorbs the carry is numerically the original one.  v = digit - 58*k for k in {-1, 1}
+        # covers every mapping into -58..-1 and 58..115; by now the character has been seen (and refused) many times in
+        # this process, so a decoder that remembers refused characters is past its first sighting.
+        for v in list(range(-58, 0)) + list(range(58, 116)):
+            d = v % 58
+            k = (d - v) // 58            # the left neighbour absorbs the carry: a*58 + d == (a + k)*58 + v
+            hits = [(s_, i) for s_ in pool for i in range(2, len(s_)) if s_[i] == ALPH[d] and 0 <= ALPH.index(s_[i - 1]) + k <= 57]
+            if not hits:
+                continue
+            s_, pos = rnd.choice(hits)
+            t = s_[:pos - 1] + ALPH[ALPH.index(s_[pos - 1]) + k] + c + s_[pos + 1:]
+            judge_check_decoder(ctx, {"s": t, "tag": "grid-nonalphabet-carry"})
         # also at position 0 and as the only change of a '1'-prefixed string
         s_ = rnd.choice(pool)
         judge_check_decoder(ctx, {"s": c + s_[1:], "tag": "grid-nonalphabet-first"})
